@@ -237,10 +237,16 @@ func genCopyCase(e *core.Env, o copyGenOpts) *copyCase {
 		}
 		if e.Choose("gen", 2, "optReferrers") == 1 {
 			c.wo.Referrers = true
-			if e.Choose("gen", 4, "optRefFilter") == 1 {
+			if rf := e.Choose("gen", 5, "optRefFilter"); rf == 1 {
 				c.wo.ReferrerTypes = []string{"application/vnd.example.sbom"}
 				c.opts = append(c.opts, regclient.ImageWithReferrers(scheme.WithReferrerMatchOpt(descMatch("application/vnd.example.sbom"))))
 				c.optNames = append(c.optNames, "referrers(sbom)")
+			} else if rf == 2 {
+				// two filters: what either of them selects is copied (a regsync referrerFilters list with two entries)
+				c.wo.ReferrerTypes = []string{"application/vnd.example.sbom", "application/vnd.example.sig"}
+				c.opts = append(c.opts, regclient.ImageWithReferrers(scheme.WithReferrerMatchOpt(descMatch("application/vnd.example.sbom"))),
+					regclient.ImageWithReferrers(scheme.WithReferrerMatchOpt(descMatch("application/vnd.example.sig"))))
+				c.optNames = append(c.optNames, "referrers(sbom)+referrers(sig)")
 			} else {
 				c.opts = append(c.opts, regclient.ImageWithReferrers())
 				c.optNames = append(c.optNames, "referrers")
